@@ -114,7 +114,7 @@ func (r *recorder) project(x int) vh.M {
 		}
 	}
 	return vh.M{"k": o.k, "of": of, "r": rows, "c": cols, "fl": sp != r.base.sparse, "pt": et != typeOf(r.base.ti),
-		"pos": pos, "v": vals, "d": ders, "sp": sp}
+		"pos": pos, "v": vals, "d": ders, "sp": sp, "v2": []int{}}
 }
 
 func (r *recorder) obs() []vh.M {
@@ -399,7 +399,7 @@ func record(path string, ntr, nops int) {
 				vh.M{"mode": "record", "why": msg})
 			continue
 		}
-		out.Put(vh.M{"e": "make", "k": r.w.objs[0].k, "r": rows, "c": cols, "vals": init, "st": zero, "res": []int{}, "obs": r.obs(), "inst": desc, "t": t})
+		out.Put(vh.M{"e": "make", "k": r.w.objs[0].k, "r": rows, "c": cols, "vals": init, "st": zero, "res": []int{}, "obs": r.obs(), "sh": []vh.M{}, "inst": desc, "t": t})
 		for i := 0; i < nops; i++ {
 			var st step
 			ok := false
@@ -428,7 +428,14 @@ func record(path string, ntr, nops int) {
 					vh.M{"mode": "record", "why": "observing: " + msg, "step": st, "trace": t, "seed": seed})
 				break
 			}
-			out.Put(vh.M{"e": "call", "k": "", "r": 0, "c": 0, "vals": []int{}, "st": st, "res": res, "obs": ob, "inst": desc, "t": t})
+			sh := []vh.M{}
+			if isDerive(st.Op) || st.Op == "append" {
+				msg = vh.Try(func() { sh = r.w.shareLog() })
+				if msg != "" {
+					vh.Fatal("recorder: walking objects:", msg)
+				}
+			}
+			out.Put(vh.M{"e": "call", "k": "", "r": 0, "c": 0, "vals": []int{}, "st": st, "res": res, "obs": ob, "sh": sh, "inst": desc, "t": t})
 		}
 	}
 	out.Close()
